@@ -7,7 +7,7 @@ from sa.engine.facts import Bad, F
 from sa.engine.pattern import P, u
 from sa.engine.source import norm, own_walk, stmt_of
 from .common import A
-from .walkers import check_walker, loop_var
+from .walkers import check_walker, loop_var, restart_walker, join_restarts
 
 EXPLANATION = ("Level-triggered cancellation: every link of the re-delivery chain is present on every path: cancel() marks then delivers, a "
                "scope cancelled before entry delivers on entry, the delivery loop schedules a retry for every live member it could not finish "
@@ -209,31 +209,7 @@ def check(ctx):
     ctx.paths("R03-d", shield_set, [("restart", "self._restart_cancellation_in_parent()")], lambda st, e, c: True if not c.is_exc else st, False,
               at_exit_s, instance="un-shield path reaches the restart")
     # the restart helper(s)
-    has_new = any(f.module.endswith(A) for f in ctx.repo.funcs.get("CancelScope._restart_cancellation", []))
-    rp = ctx.fn("CancelScope._restart_cancellation_in_parent", A)
-    walker = ctx.fn("CancelScope._restart_cancellation", A) if has_new else rp
-    if has_new:
-        s = ctx.sites(rp, "self._parent_scope._restart_cancellation()")
-        ok = len(s) == 1
-        if ok:
-            fa = ctx.facts_at(rp, s[0][0])
-            ok = bool(fa) and all(F("self._parent_scope is not None") in x for x in fa)
-        ctx.ob("R03-d", rp, "_restart_cancellation_in_parent delegates to the parent's restart", ok,
-               detail="" if ok else "no `self._parent_scope._restart_cancellation()` under `self._parent_scope is not None`", by=("delegation",))
-    v = check_walker(ctx, "R03-d", walker)
-    if v:
-        ds = ctx.sites(walker, f"{v}._deliver_cancellation({v})")
-        if ctx.need("R03-d", walker, "restart delivers from the closest cancelled scope", len(ds), 1):
-            ctx.require_at("R03-d", walker, ds[0][0], [[f"{v}._cancel_called", f"{v}._cancel_handle is None"]],
-                           instance="delivery (re)started only in a cancelled scope whose callback is not already pending")
-
-        def at_exit_w(kind, st, facts):
-            if kind == "return" and (f"{v}._cancel_called", True) in facts and (f"{v}._cancel_handle is None", False) not in facts and not st:
-                return "a cancelled scope without a pending delivery callback is found but delivery is not restarted"
-            return None
-
-        ctx.paths("R03-d", walker, [("deliver", f"{v}._deliver_cancellation({v})")], lambda st, e, c: True if not c.is_exc else st, False, at_exit_w,
-                  instance="restart reaches delivery")
+    restart_walker(ctx, "R03-d")
 
     # ---- R03-g checkpoint_if_cancelled spins -----------------------------------------------------------------------------------
     cic = ctx.fn("AsyncIOBackend.checkpoint_if_cancelled", A)
@@ -303,28 +279,4 @@ def check(ctx):
                node=st, by=(f"{q}:{kind}",))
 
     # ---- R03-i joining a possibly-cancelled scope restarts delivery ---------------------------------------------------------------
-    joiners = [(f, st, n) for f, rel, st, kind, n in ws if kind == "call:add" and f is not None and f.qual in
-               ("TaskGroup._spawn", "AsyncIOBackend.run_async_from_thread.task_wrapper")]
-    ctx.floor("R03-i", "sites where a new task joins a scope", len(joiners), 2)
-    for f, st, n in joiners:
-        recv = ast.unparse(n.value)
-
-        def step_j(st_, e, c, recv=recv):
-            if c.is_exc:
-                return st_
-            if e == "add":
-                return "added"
-            if e == "restart" and st_ == "added":
-                return "restarted"
-            if e == "susp" and st_ == "added":
-                return Bad("a task is added to a scope and the function suspends before restarting that scope's cancellation delivery")
-            return st_
-
-        def at_exit_j(kind, st_, facts):
-            if kind == "return" and st_ == "added":
-                return ("a task joins a scope that may already be cancelled and delivery is not restarted: if the delivery callback has died "
-                        "down (host parked in a shielded inner scope) the new task is never cancelled")
-            return None
-
-        ctx.paths("R03-i", f, [("add", f"{recv}._tasks.add($T)"), ("restart", f"{recv}._restart_cancellation()"),
-                               ("susp", ["await $X"])], step_j, None, at_exit_j, instance=f"join of {recv} restarts delivery")
+    join_restarts(ctx, "R03-i", ("TaskGroup._spawn", "AsyncIOBackend.run_async_from_thread.task_wrapper"), 2)
